@@ -35,7 +35,14 @@ func (d *Driver) EstablishPeriodicSubscription(
 
 	m := d.buildPayload(establishElem)
 
-	r, err := d.sendRPC(m, &OperationOptions{})
+	// the zero value of OperationOptions asks for the maximum timeout, start from the defaults so
+	// that the connection wide timeout applies like it does for every other rpc
+	op, err := NewOperation()
+	if err != nil {
+		return nil, err
+	}
+
+	r, err := d.sendRPC(m, op)
 	if err != nil {
 		return nil, err
 	}
